@@ -288,17 +288,21 @@ func (s *Store) LoadCheckpoint() error {
 			return fmt.Errorf("restore checkpoints from savepoint: %v", err)
 		}
 	} else {
-		// For a new job, check the file store for first (latest) snapshot file.
-		// Checkpoint IDs are encoded so that files will be in reverse chronological
-		// order.
+		// For a new job, check the file store for the snapshot file with the
+		// highest checkpoint ID. The listing order is not relied upon: the encoded
+		// path segments do not sort by ID.
 		var latestCheckpointFile string
+		var latestID uint64
 		for filePath, err := range s.fileStore.List() {
 			if err != nil {
 				return err
 			}
-			if filepath.Ext(filePath) == ".snapshot" {
-				latestCheckpointFile = filePath
-				break
+			id, ok := snapshotFileID(filePath)
+			if !ok {
+				continue
+			}
+			if latestCheckpointFile == "" || id > latestID {
+				latestCheckpointFile, latestID = filePath, id
 			}
 		}
 
